@@ -1,6 +1,7 @@
 import Gv.Oracle.Det
+import Gv.Oracle.CliDivide
 import Gv.Oracle.Loop
 /-! oracle of property C11: only the handlers it needs -/
 open Gv Gv.Oracle
 
-def main : IO Unit := runOracle [DetOps.handle]
+def main : IO Unit := runOracle [CliDivideOps.handle, DetOps.handle]
